@@ -1,0 +1,15 @@
+//go:build verif
+
+package poly1305
+
+import "golang.org/x/crypto/internal/poly1305"
+
+// Re-exports of the internal package's verif hooks (the harness cannot import internal/).
+
+type VerifGenericMAC = poly1305.VerifGenericMAC
+
+func VerifSumGeneric(out *[TagSize]byte, msg []byte, key *[32]byte) {
+	poly1305.VerifSumGeneric(out, msg, key)
+}
+
+func VerifNewGeneric(key *[32]byte) *VerifGenericMAC { return poly1305.VerifNewGeneric(key) }
